@@ -264,7 +264,14 @@ def str_method(it, recv, name, args, kw):
                     isinstance(a, str) for a in args) and not kw:
         fname = 'py_%s' % name + ''.join('_%s' % a.encode().hex()
                                          for a in args)
-        return mk_str(ufun(fname, _S, _S)(e))
+        r = ufun(fname, _S, _S)(e)
+        if name in ('lower', 'upper') and not args:
+            # ASCII text keeps its length (and stays ASCII) under case
+            # mapping; nothing is said about other strings
+            asc = ufun('py_isascii', _S, z3.BoolSort())
+            it.path.fact(z3.Implies(asc(e), z3.And(
+                asc(r), z3.Length(r) == z3.Length(e))))
+        return mk_str(r)
     if name == 'encode':
         return codec_encode(it, recv, args, kw)
     if name == 'replace' and len(args) == 2 and all(
@@ -287,6 +294,17 @@ def str_method(it, recv, name, args, kw):
         return mk_bool(z3.SuffixOf(zstr(args[0]), e))
     if name == 'find' and len(args) == 1:
         return mk_int(z3.IndexOf(e, zstr(args[0]), 0))
+    if name == 'find' and len(args) == 2 and not kw:
+        from .core import zint
+        st = zint(args[1])
+        if it.truth(mk_bool(z3.And(st >= 0, st <= z3.Length(e)))):
+            return mk_int(z3.IndexOf(e, zstr(args[0]), st))
+        raise Unsupported('str.find with a start outside the string')
+    if name == 'index' and len(args) == 1 and not kw:
+        pos = z3.IndexOf(e, zstr(args[0]), 0)
+        if it.truth(mk_bool(pos < 0)):
+            it.throw(ValueError, 'substring not found')
+        return mk_int(pos)
     if name == 'count' and len(args) == 1 and isinstance(args[0], str) \
             and len(args[0]) == 1:
         raise Unsupported('str.count on symbolic string')
@@ -421,14 +439,55 @@ def codec_decode(it, recv, args, kw):
         if it.truth(mk_bool(e_e == enc)):
             # A-CODEC round trip
             return mk_str(s_e)
-    b = _bytes_term(it, recv)
+    try:
+        b = _bytes_term(it, recv)
+    except Unsupported:
+        e_enc = z3.simplify(enc)
+        e_err = z3.simplify(err)
+        if z3.is_string_value(e_enc) and e_enc.as_string() in (
+                'ascii', 'us-ascii') and z3.is_string_value(e_err) \
+                and e_err.as_string() == 'strict':
+            return ascii_decode_exact(it, recv)
+        raise
     if not it.truth(_codec_known(enc)):
         it.throw(LookupError, 'unknown encoding')
     ok = ufun('py_decode_ok', _B, _S, _S, z3.BoolSort())(b, enc, err)
     if not it.truth(mk_bool(ok)):
         it.throw(UnicodeDecodeError, 'codec', b'', 0, 1, 'invalid')
     it.trusted.add('A-CODEC')
-    return mk_str(ufun('py_decode', _B, _S, _S, _S)(b, enc, err))
+    r = ufun('py_decode', _B, _S, _S, _S)(b, enc, err)
+    e_enc = z3.simplify(enc)
+    e_err = z3.simplify(err)
+    if z3.is_string_value(e_enc) and e_enc.as_string() in (
+            'ascii', 'us-ascii') and z3.is_string_value(e_err) \
+            and e_err.as_string() == 'strict':
+        # one character per byte, all of them ASCII
+        from . import ops
+        it.path.fact(z3.Length(r) == ops.as_sbytes(recv).zlen())
+        it.path.fact(ufun('py_isascii', _S, z3.BoolSort())(r))
+    return mk_str(r)
+
+
+def ascii_decode_exact(it, recv):
+    """bytes.decode('ascii') of a derived (sliced / concatenated) value,
+    modelled exactly: fails iff some byte is >= 128, otherwise the result
+    has one character per byte with that code."""
+    from . import ops
+    b = ops.as_sbytes(recv)
+    n = b.zlen()
+    j = z3.Int('q!%d' % next(it.path.fresh))
+    ok = z3.ForAll([j], z3.Implies(z3.And(j >= 0, j < n), b.at(j) < 128))
+    if not it.truth(mk_bool(ok)):
+        it.throw(UnicodeDecodeError, 'ascii', b'', 0, 1,
+                 'ordinal not in range(128)')
+    r = _fresh_s(it, 'ascii')
+    k = z3.Int('q!%d' % next(it.path.fresh))
+    it.path.fact(z3.Length(r) == n)
+    it.path.fact(z3.ForAll([k], z3.Implies(
+        z3.And(k >= 0, k < n),
+        z3.StrToCode(z3.SubString(r, k, 1)) == b.at(k))))
+    it.path.fact(ufun('py_isascii', _S, z3.BoolSort())(r))
+    return mk_str(r)
 
 
 def codec_encode(it, recv, args, kw):
@@ -460,4 +519,24 @@ def bytes_method(it, recv, name, args, kw):
         r = hook(it, recv, name, args, kw)
         if r is not NotImplemented:
             return r
+    if name in ('index', 'find') and len(args) == 1 and not kw and isinstance(
+            args[0], bytes) and len(args[0]) == 1:
+        # first occurrence of one byte value
+        from . import ops
+        b = ops.as_sbytes(recv)
+        n = b.zlen()
+        c = args[0][0]
+        j = z3.Int('q!%d' % next(it.path.fresh))
+        absent = z3.ForAll([j], z3.Implies(z3.And(j >= 0, j < n),
+                                           b.at(j) != c))
+        if it.truth(mk_bool(absent)):
+            if name == 'find':
+                return -1
+            it.throw(ValueError, 'subsection not found')
+        i = z3.Int('first!%d' % next(it.path.fresh))
+        k = z3.Int('q!%d' % next(it.path.fresh))
+        it.path.fact(z3.And(i >= 0, i < n, b.at(i) == c))
+        it.path.fact(z3.ForAll([k], z3.Implies(z3.And(k >= 0, k < i),
+                                               b.at(k) != c)))
+        return mk_int(i)
     raise Unsupported('bytes.%s on symbolic bytes' % name)
